@@ -295,6 +295,8 @@ def _try_get_known_phased_pauli(
     if no_symbolic and protocols.is_parameterized(op):
         return None
     gate = op.gate
+    if any(q.dimension != 2 for q in op.qubits):
+        return None  # the X / Z powers of a qudit are not Paulis
 
     if isinstance(gate, ops.PhasedXPowGate):
         e = gate.exponent
@@ -321,6 +323,8 @@ def _try_get_known_z_half_turns(
     op: ops.Operation, no_symbolic: bool = False
 ) -> value.TParamVal | None:
     g = op.gate
+    if any(q.dimension != 2 for q in op.qubits):
+        return None
     if (
         isinstance(g, ops.PhasedXZGate)
         and not protocols.is_parameterized(g.x_exponent)
